@@ -270,6 +270,14 @@ func (s *Server) processOutbox() {
 			continue
 		}
 
+		// A change notice about a user who has left in the meantime (its account was edited while it hung up, say) would
+		// put that user back on the recipient's list for good: the "user left" notices are queued already.
+		if t.Type == TranNotifyChangeUser {
+			if id := t.GetField(FieldUserID).Data; len(id) == 2 && s.ClientMgr.Get([2]byte(id)) == nil {
+				continue
+			}
+		}
+
 		prev, gate := client.sendTail, &sync.Mutex{}
 		gate.Lock()
 		client.sendTail = gate
